@@ -44,6 +44,9 @@ var (
 
 func (s Scaler) remapMinMax(min, max int64) (float64, float64) {
 	if max <= min {
+		if min == math.MaxInt64 { // min+1 would wrap around
+			min--
+		}
 		max = min + 1
 	}
 	return math.Floor(s.mapVal(float64(min))), math.Ceil(s.mapVal(float64(max)))
